@@ -8,6 +8,7 @@ import YashModel.Args.Theorems
 import YashModel.Args.SetLemmas
 import YashModel.Args.SetTheorems
 import YashModel.Args.GetoptsLemmas
+import YashModel.Args.EndOfOptionsLemmas
 namespace YashModel.Args
 
 /-- ★ `parse_arguments`: exactly ONE separator is skipped; a second `--` right behind it is the first operand -/
@@ -85,6 +86,53 @@ theorem kill_dashdash_ends (nm : Names) (portable : Bool) (st : KillState) (xs :
     killLoop nm portable st (['-', '-'] :: xs) = .ok (st, xs) := by
   rw [killLoop]; simp [killIsOption]
 
+/-- ★ the shell's own command line: behind ANY accepted options-only prefix the separator (`--` or `-`) ends the
+    options; command string / script file / `arg0` / positional parameters are read from everything behind it,
+    verbatim (`sh -e -- -- x` runs the script `--` with the parameter `x`) -/
+theorem sh_separator_ends (nm : Names) (arg0 : Str) {pre : List Str} {p' : Bool} {r' : Run}
+    (h : ShOptionsOnly nm false { options := arg0Options arg0, arg0 := arg0 } pre p' r')
+    (sep : Str) (hsep : sep = ['-', '-'] ∨ sep = ['-']) (xs : List Str) :
+    shParse nm (arg0 :: (pre ++ sep :: xs)) = shInterpret r' xs := by
+  unfold shParse
+  simp only []
+  rw [shLoop_after_options h, sh_separator_stops_loop nm p' r' sep hsep xs]
+  exact sh_operands_after_separator r' sep hsep xs
+
+/-- `yash -e -- -- x`: the script is `--`, its parameter `x` -/
+example : shParse exNames ["yash".toList, ['-','e'], ['-','-'], ['-','-'], ['x']] =
+    .ok (.run { options := [("errexit".toList, true)], arg0 := ['-','-'], source := .file ['-','-'], params := [['x']] }) :=
+  sh_separator_ends exNames "yash".toList (pre := [['-','e']])
+    (ShOptionsOnly.one false _ ['-','e'] (pushOptions [("errexit".toList, true)]) false [] false _ (fun next => by rfl)
+      (ShOptionsOnly.nil false _)) ['-','-'] (Or.inl rfl) [['-','-'], ['x']]
+
+/-- ★ `kill`: behind ANY accepted options-only prefix `--` ends the options: the loop ends in the state the prefix
+    produced, with everything behind the `--` as operands, verbatim (`kill -s INT -- -1`: target `-1`) -/
+theorem kill_dashdash_ends_anywhere (nm : Names) (portable : Bool) {st : KillState} {pre : List Str} {st' : KillState}
+    (h : KillOptionsOnly nm portable st pre st') (xs : List Str) :
+    killLoop nm portable st (pre ++ ['-', '-'] :: xs) = .ok (st', xs) := by
+  rw [killLoop_after_options h, kill_dashdash_ends]
+
+/-- ★ … so a signal sent is sent to exactly those targets: with a prefix that names a signal and neither `-l` nor
+    `-v`, `kill <prefix> -- <targets>` is `Send` of that signal to `<targets>` (negative process ids included) -/
+theorem kill_send_targets_after_dashdash (nm : Names) (portable : Bool) (sigterm : Int) {pre : List Str} {st' : KillState}
+    (h : KillOptionsOnly nm portable { signal := sigterm } pre st') (hl : st'.list = false) (hv : st'.verbose = false)
+    (xs : List Str) (hxs : xs ≠ []) :
+    killParse nm portable sigterm (pre ++ ['-', '-'] :: xs) = .ok (.send st'.signal st'.hasOrigin xs) := by
+  unfold killParse
+  rw [kill_dashdash_ends_anywhere nm portable h]
+  cases xs with
+  | nil => exact absurd rfl hxs
+  | cons x xs => simp [hl, hv]
+
+def exSig2 : Names := { sig := [("INT".toList, 2)] }
+
+/-- `kill -s INT -- -1 --`: signal 2 to the targets `-1`, `--` -/
+example : killParse exSig2 false 15 [['-','s'], "INT".toList, ['-','-'], ['-','1'], ['-','-']] =
+    .ok (.send 2 true [['-','1'], ['-','-']]) :=
+  kill_send_targets_after_dashdash exSig2 false 15 (pre := [['-','s'], "INT".toList])
+    (KillOptionsOnly.two _ ['-','s'] "INT".toList { signal := 2, hasOrigin := true } [] _ rfl (by decide) (by rfl)
+      (KillOptionsOnly.nil _)) rfl rfl [['-','1'], ['-','-']] (by simp)
+
 end Bespoke
 
 namespace Getopts
@@ -95,6 +143,34 @@ theorem getopts_dashdash_ends (spec : Str) (xs : List Str) :
     obsOf (['-', '-'] :: xs) (walkAll spec (['-', '-'] :: xs)) = ([], some xs) := by
   rw [walkAll_eq_W]
   simp [W]
+
+/-- ★ `getopts`: behind ANY prefix of option groups (with their option-arguments), `--` ends the options and is
+    skipped; the script sees the events of the prefix and is left with everything behind the `--`, verbatim -/
+theorem getopts_dashdash_ends_anywhere (spec : Str) {pre : List Str} {evs : List EvV}
+    (h : GOptionsOnly spec (isColon spec) pre evs) (xs : List Str) :
+    obsOf (pre ++ ['-', '-'] :: xs) (walkAll spec (pre ++ ['-', '-'] :: xs)) = (evs, some xs) := by
+  rw [walkAll_eq_W, W_after_options h]
+  simp [W, prependE]
+
+/-- ★ … and so does the first operand (an argument that is not `-x…`), which stays -/
+theorem getopts_first_operand_ends_anywhere (spec : Str) {pre : List Str} {evs : List EvV}
+    (h : GOptionsOnly spec (isColon spec) pre evs) (x : Str) (hx : ∀ c cs, x ≠ '-' :: c :: cs) (xs : List Str) :
+    obsOf (pre ++ x :: xs) (walkAll spec (pre ++ x :: xs)) = (evs, some (x :: xs)) := by
+  rw [walkAll_eq_W, W_after_options h]
+  have : W spec (isColon spec) (x :: xs) = ([], x :: xs) := by
+    rw [W]
+    exact fun c cs heq => hx c cs heq
+  simp [this, prependE]
+
+/-- optstring `ab:` — `-a -b Y -- -- -a`: `a`, `b` with argument `Y`; operands `--`, `-a` -/
+example : obsOf [['-','a'], ['-','b'], ['Y'], ['-','-'], ['-','-'], ['-','a']]
+      (walkAll ['a','b',':'] [['-','a'], ['-','b'], ['Y'], ['-','-'], ['-','-'], ['-','a']]) =
+    ([('a', none, false), ('b', some ['Y'], false)], some [['-','-'], ['-','a']]) :=
+  getopts_dashdash_ends_anywhere ['a','b',':'] (pre := [['-','a'], ['-','b'], ['Y']])
+    (GOptionsOnly.one 'a' [] [('a', none, false)] [['-','b'], ['Y']] [('b', some ['Y'], false)] (by decide)
+      (fun next => by cases next <;> rfl)
+      (GOptionsOnly.two 'b' [] ['Y'] [('b', some ['Y'], false)] [] [] (by decide) rfl GOptionsOnly.nil))
+    [['-','-'], ['-','a']]
 
 end Getopts
 end YashModel.Args
